@@ -1,4 +1,4 @@
-(** C18 — HTML path, token level, for EVERY document, EVERY token list and EVERY answer of the attribute pattern matcher: if the supplied net/url results are sound, Policy.Sanitize's output is the blank document itself or the rendering of tokens whose start tags are allowed non-forbidden elements with no event-handler attribute and only scheme-checked URL attributes, text and attribute values escaped *)
+(** C18 — HTML path, token level, for EVERY document, EVERY token list and EVERY answer of the attribute pattern matcher: if the supplied net/url results are sound, Policy.Sanitize's output is the blank document itself or the rendering of tokens whose start and self-closing tags are allowed non-forbidden elements with no event-handler attribute and only scheme-checked URL attributes, text and attribute values escaped *)
 From IV Require Import Base.Bytes Gen.SanitizeConsts Model.Sanitize Model.SanitizePolicy Proofs.SanitizeEscape Proofs.SanitizePolicy.
 Theorem sanitized_html_inert : forall (doc : str) (toks : list htoken),
   forallb tok_sound toks = true ->
@@ -7,7 +7,9 @@ Theorem sanitized_html_inert : forall (doc : str) (toks : list htoken),
       /\ forallb otoken_inert (bm_tokens toks) = true
       /\ (forall d, In (OText d) (bm_tokens toks) ->
             forall c, In c (render_otoken (OText d)) -> c <> 60 /\ c <> 62 /\ c <> 34 /\ c <> 39)
-      /\ (forall k v, exists v', render_attr (k, v) = [32] ++ k ++ [61; 34] ++ v' ++ [34]
+      /\ (forall n attrs k v,
+            In (OStart n attrs) (bm_tokens toks) \/ In (OSelf n attrs) (bm_tokens toks) -> In (k, v) attrs ->
+            exists v', render_attr (k, v) = [32] ++ k ++ [61; 34] ++ v' ++ [34]
             /\ (forall c, In c v' -> c <> 34 /\ c <> 60 /\ c <> 62 /\ c <> 39 /\ c <> 13)
             /\ unescape esc_x v' = v)).
 Proof. exact SanitizePolicy.sanitized_html_inert. Qed.
